@@ -72,13 +72,10 @@ def Entry.hLogCount (e : Entry) : Nat := e.blocks.flatten.length
 /-- `leafValue.historyCount()`. -/
 def Entry.hcount (e : Entry) : Nat := e.older.length + 1
 
-/-- `block0` = the history-log block stored at offset 0 (`[]` while the history log is empty).
-It is observable: a fresh `leafValue` has `hOff = 0`, so the chain of every key ends with a
-pointer to offset 0, and `lastUpdateBetween` can follow it (see `betweenChain`). -/
+/-- The map: entries sorted by key plus the logical time of the tree (`root.ts()`). -/
 structure MVMap where
   entries : List Entry := []
   ts : Nat := 0
-  block0 : List TV := []
 deriving DecidableEq, Repr
 
 namespace MVMap
@@ -144,40 +141,34 @@ def betweenInNode (t1 t2 hcount : Nat) : List TV → Nat → Option (Except Err 
     else betweenInNode t1 t2 hcount rest (i + 1)
 
 /-- One history-log block (`for j < hc`): a decision, or the new `skippedUpdates`. The counter is
-`lv.hCount - skippedUpdates` in uint64 arithmetic (it wraps when the chain is overrun). -/
+`lv.hCount - skippedUpdates` (uint64 in the code; `skippedUpdates ≤ hCount` throughout the walk, so the
+subtraction never wraps). -/
 def betweenBlock (t1 t2 hLogCount : Nat) : List TV → Nat → Except Err Hit ⊕ Nat
   | [], sk => .inr sk
   | tv :: rest, sk =>
     if tv.ts < t1 then .inl (.error .keyNotFound)
-    else if tv.ts ≤ t2 then .inl (.ok (tv.value, tv.ts, (hLogCount + 2 ^ 64 - sk) % 2 ^ 64))
+    else if tv.ts ≤ t2 then .inl (.ok (tv.value, tv.ts, hLogCount - sk))
     else betweenBlock t1 t2 hLogCount rest (sk + 1)
 
-/-- Second loop of `lastUpdateBetween`: `for i := 0; i < lv.hCount; i++` reads one BLOCK per
-iteration although `hCount` counts VERSIONS. When a block holds more than one version the loop
-runs past the end of the key's chain: the last block's `prevOff` is 0 (initial `hOff`), so it goes
-on reading the block stored at offset 0 of the history log — another key's history — again and
-again until `fuel` runs out or an entry decides. (`block0 = []` = empty log: the Go reader fails.) -/
-def betweenChain (t1 t2 hLogCount : Nat) (block0 : List TV) : Nat → List (List TV) → Nat → Except Err Hit
-  | 0, _, _ => .error .keyNotFound
-  | fuel + 1, b :: bs, sk =>
+/-- Second loop of `lastUpdateBetween`: `for skippedUpdates < lv.hCount` reads one BLOCK per iteration
+and follows `prevOff` to the previous block of the key. `hCount` is the number of versions in the
+key's chain (`Entry.hLogCount = blocks.flatten.length`), so the loop condition fails exactly when the
+last block of the chain has been consumed: the walk never leaves the key's own blocks. -/
+def betweenChain (t1 t2 hLogCount : Nat) : List (List TV) → Nat → Except Err Hit
+  | [], _ => .error .keyNotFound
+  | b :: bs, sk =>
     match betweenBlock t1 t2 hLogCount b sk with
     | .inl r => r
-    | .inr sk' => betweenChain t1 t2 hLogCount block0 fuel bs sk'
-  | fuel + 1, [], sk =>
-    if block0.isEmpty then .error .other
-    else match betweenBlock t1 t2 hLogCount block0 sk with
-      | .inl r => r
-      | .inr sk' => betweenChain t1 t2 hLogCount block0 fuel [] sk'
+    | .inr sk' => betweenChain t1 t2 hLogCount bs sk'
 
-/-- `leafValue.lastUpdateBetween` as it is. -/
-def lastUpdateBetween (block0 : List TV) (e : Entry) (t1 t2 : Nat) : Except Err Hit :=
+/-- `leafValue.lastUpdateBetween`. -/
+def lastUpdateBetween (e : Entry) (t1 t2 : Nat) : Except Err Hit :=
   if t1 > t2 then .error .illegal
   else match betweenInNode t1 t2 e.hcount (e.cur :: e.inNode) 0 with
     | some r => r
-    | none => betweenChain t1 t2 e.hLogCount block0 e.hLogCount e.blocks 0
+    | none => betweenChain t1 t2 e.hLogCount e.blocks 0
 
-/-- What `lastUpdateBetween` is meant to compute (and does compute whenever the chain is not
-overrun, `Props.C10.getBetween_spec`): walk ALL versions newest first. -/
+/-- What `lastUpdateBetween` computes (`Props.C10.getBetween_spec`): walk ALL versions newest first. -/
 def betweenAux (t1 t2 : Nat) : List TV → Except Err Hit
   | [] => .error .keyNotFound
   | tv :: rest =>
@@ -188,7 +179,7 @@ def betweenAux (t1 t2 : Nat) : List TV → Except Err Hit
 def getBetween (m : MVMap) (k : Bytes) (t1 t2 : Nat) : Except Err (Bytes × Nat × Nat) :=
   match m.find k with
   | none => .error .keyNotFound
-  | some e => lastUpdateBetween m.block0 e t1 t2
+  | some e => lastUpdateBetween e t1 t2
 
 /-- `leafValue.history`: window arithmetic exactly as in the code (`initAt`, reversed fill for
 ascending order). -/
@@ -303,23 +294,17 @@ def scanBetween (m : MVMap) (maxKeySize : Nat) (s : ReaderSpec) (t1 t2 : Nat) : 
   match newReader maxKeySize s with
   | .error x => .error x
   | .ok r => .ok ((selected m r).filterMap (fun e =>
-      match lastUpdateBetween m.block0 e t1 t2 with
+      match lastUpdateBetween e t1 t2 with
       | .ok (v, ts, hc) => some (e.key, v, ts, hc)
       | .error _ => none))
 
 /-- What a flush does to the representation (`leafNode.writeTo` with `commitLog`): every key with
-more than one in-node version gets ONE new history-log block holding all but the newest; the first
-block ever written lands at offset 0. The versions of every key are unchanged. -/
+more than one in-node version gets ONE new history-log block holding all but the newest, chained to
+the key's previous block. The versions of every key are unchanged. -/
 def flushEntry (e : Entry) : Entry :=
   if e.inNode.isEmpty then e else { e with inNode := [], blocks := e.inNode :: e.blocks }
 
-def flush (m : MVMap) : MVMap :=
-  { m with entries := m.entries.map flushEntry,
-           block0 := if m.block0.isEmpty then
-                       (match m.entries.find? (fun e => !e.inNode.isEmpty) with
-                        | some e => e.inNode
-                        | none => [])
-                     else m.block0 }
+def flush (m : MVMap) : MVMap := { m with entries := m.entries.map flushEntry }
 
 /-- `tsMutated()` of the root: every key's newest ts is below the tree time. -/
 def tsMutated (m : MVMap) : Bool := m.entries.all (fun e => decide (e.cur.ts < m.ts))
